@@ -131,6 +131,16 @@ prop("C11", True,
      "abstract interpretation (two-point string lattice with an inductive field invariant) + sink enumeration over go/ssa",
      "DESIGN.md §2 C11")
 
+prop("C02", True,
+     "Static check over every frame for the unrecovered receive-loop goroutine: same-goroutine call-graph reach inside listener/canary (VTA, stopping at go statements and recovering callees); (a) no reachable panic/log.Fatal/os.Exit "
+     "(three individually named exceptions with re-checked premises), (b) every dereference of a may-return-nil result is dominated by a nil test, (c) all 69 index/slice/make obligations on frame-derived bytes (inter-procedural taint from the "
+     "Recvfrom buffer) are discharged by a difference-bound prover: facts from edge-dominating conditions, definitions, interval arithmetic with condition-aware refinement of x*k/x<<k, forwarding of struct-field loads to reaching stores, "
+     "per-edge case splits at value and memory phis. Off-by-one mutants of each guard are detected. ARP parsing excluded on the re-checked premise that Canary.doARP is never written. Self-constructed buffers (Marshal/send/checksum update) are attempted, "
+     "reported, not claimed. 'A later probe still yields its event' is decided only as 'the loop cannot die by these causes'.",
+     "Entry assumption: frames >= 14 bytes (property's quantifier). Callees do not modify a header struct between a guard and the use of its fields. syscall.Recvfrom returns n <= len(buf). 32-bit unsigned loop counters bounded by a length do not wrap.",
+     "call-graph reach + inter-procedural taint + difference-bound (zone) prover with memory forwarding over go/ssa",
+     "DESIGN.md §2 C02")
+
 PENDING = {
  "C01": "check not built yet in this revision (design: DESIGN.md §2 C01)",
 }
